@@ -221,7 +221,11 @@ pub fn ref_point_ok(p: &[Rec], vs: &[Val]) -> bool {
     p.len() == vs.len() && p.iter().zip(vs.iter()).all(|(r, v)| r.dt.accepts(v))
 }
 
+// the minimum / maximum of the values as REAL numbers: a NaN is not a value of the attribute
 fn fmin(cur: &mut Option<u64>, v: f64) {
+    if v.is_nan() {
+        return;
+    }
     match cur {
         Some(c) => {
             if f64::from_bits(*c) > v {
@@ -232,6 +236,9 @@ fn fmin(cur: &mut Option<u64>, v: f64) {
     }
 }
 fn fmax(cur: &mut Option<u64>, v: f64) {
+    if v.is_nan() {
+        return;
+    }
     match cur {
         Some(c) => {
             if f64::from_bits(*c) < v {
@@ -306,8 +313,16 @@ pub fn expected_scene(prog: &Program, results: &[String]) -> Scene {
                 if let Some(r) = get(proto, "intensity") {
                     c.il = Some(limits_of(&r.dt));
                 }
+                let mut done: Option<SCloud> = None; // the cloud as it was at the first successful finalize
                 for b in body {
-                    if opened {
+                    if matches!(b, PcStmt::Fin) {
+                        if opened && done.is_none() && ok(k) {
+                            done = Some(c.clone());
+                        }
+                        k += 1;
+                        continue;
+                    }
+                    if opened && done.is_none() {
                         match b {
                             PcStmt::P(vs) => {
                                 if ok(k) {
@@ -365,12 +380,18 @@ pub fn expected_scene(prog: &Program, results: &[String]) -> Scene {
                             PcStmt::Time(kw, v) => c.acq[if *kw == "AS" { 0 } else { 1 }] = *v,
                             PcStmt::Flt(kw, v) => c.flt[["TEMP", "HUM", "PRES"].iter().position(|x| x == kw).unwrap()] = *v,
                             PcStmt::Il(v) => c.il = v.clone(),
+                            PcStmt::Fin => {}
                             PcStmt::Cl(v) => c.cl = v.clone(),
                         }
                     }
                     k += 1;
                 }
-                if opened && *end && ok(k) {
+                let finalized_inside = done.is_some();
+                if let Some(d) = done {
+                    // finalized inside the body: later statements met a finalized writer
+                    c = d;
+                }
+                if opened && (finalized_inside || (*end && ok(k))) {
                     // incomplete limits are not stored
                     if let Some((a, b)) = &c.il {
                         if a.is_none() || b.is_none() {
